@@ -16,13 +16,13 @@ theorem oracle_translated_pinned : Irismod.Gen.PureOracle.translated =
     ["SetFeedValue_delta_1(counter,latestHistory)",
      "SetFeedValue_call_deleteOldestFeedValue_1_arg1(feedName)",
      "SetFeedValue_call_deleteOldestFeedValue_1_arg2(delta)",
-     "EditFeed_expectCnt_1(msg_LatestHistory)",
-     "EditFeed_feed_LatestHistory_1(msg_LatestHistory)",
-     "EditFeed_call_deleteOldestFeedValue_1_arg1(feed_FeedName)",
-     "EditFeed_call_deleteOldestFeedValue_1_arg2(cnt,expectCnt)",
      "EditFeed_guard_1(msg_Creator,feed_Creator)",
      "EditFeed_cond_2(msg_LatestHistory)",
      "EditFeed_cond_3(expectCnt,cnt)",
+     "EditFeed_expectCnt_1(msg_LatestHistory)",
+     "EditFeed_call_deleteOldestFeedValue_1_arg1(feed_FeedName)",
+     "EditFeed_call_deleteOldestFeedValue_1_arg2(cnt,expectCnt)",
+     "EditFeed_feed_LatestHistory_1(msg_LatestHistory)",
      "EditFeed_cond_4(read_types_Modified_msg_Description)"] := rfl
 
 private theorem wrap_id' (x : Int) (h : -9223372036854775808 ≤ x ∧ x < 9223372036854775808) : I64_wrap x = x := by
